@@ -4,7 +4,9 @@ Theorems: coq/Properties/C08.v (Model/Scale.v over Model/Convert.v).  Correspond
 implementation, scaled by it (factors, servings, default), and the extracted model scales the
 *dumped* recipe; amounts within 2^-40 relative, everything else exactly.  Monitor (this file,
 `monitor_op`): an independent statement of C08 evaluated with exact rationals on what the
-implementation returned, using only the unit table the implementation publishes."""
+implementation returned: amounts are computed twice, with the unit table the implementation publishes
+(2^-40) and with the hand-written real-world definitions of coq/Model/Standards.v (4e-6, the C09 tolerance
+of the table), so that a self-consistent but wrong table is seen too."""
 import os
 import random
 import re
@@ -173,11 +175,23 @@ def shorten_frames(dump, table):
 
 # ---------------------------------------------------------------- the monitor (independent of the model)
 
+STD_REL = Fraction(4, 10 ** 6)     # published ratios are within 1e-6 of the standards (C09_definitions)
+
+
 class Units:
-    def __init__(self, dumps):
+    """the unit table the implementation publishes (key -> unit) and, per unit, its real-world
+    definition from the hand-written standards table (coq/Model/Standards.v), independent of /repo"""
+
+    def __init__(self, dumps, standards=None):
         self.units = dumps
         self.by_key = {}
+        self.standards = standards or {}
+        self.without_standard = []
         for u in dumps:
+            nm = u["names"][0] if u["names"] else None
+            u["std"] = self.standards.get(nm)
+            if standards is not None and u["std"] is None:
+                self.without_standard.append(nm)
             for k in u["names"] + u["symbols"] + u["aliases"]:
                 self.by_key.setdefault(k, u)
 
@@ -185,6 +199,14 @@ class Units:
         if unit_tok == "-":
             return None
         return self.by_key.get(unhx(unit_tok))
+
+
+def real_world(u, x):
+    """the amount of x [u] in the base unit by the real-world definition of u, or None"""
+    if u.get("std") is None:
+        return None
+    _, r, d = u["std"]
+    return (x + d) * r
 
 
 def parse_unit_dump(line):
@@ -238,6 +260,11 @@ def same_amount(units, q0, q1, why):
         Dev.see(x0, x1)
         if not close(x0, x1, atol * k0["ratio"]):
             bad.append(why + ":amount-changed")
+        # ... and by the real-world definitions of the two units (not the implementation's table)
+        w0, w1 = real_world(k0, a), real_world(k1, b)
+        if w0 is not None and w1 is not None:
+            if k1["std"][0] != k0["std"][0] or abs(w0 - w1) > STD_REL * max(abs(w0), abs(w1)) + atol * 10:
+                bad.append(why + ":real-world-amount-changed")
     return bad
 
 
@@ -267,6 +294,12 @@ def times_amount(units, f, q0, q1, why):
         Dev.see(a * f, back)
         if not close(a * f, back, atol):
             bad.append(why + ":not-multiplied")
+        # ... and by the real-world definitions: the result, in the written unit, is f x the written value
+        if k0.get("std") is not None and k1.get("std") is not None:
+            w1 = real_world(k1, b)
+            wback = w1 / k0["std"][1] - k0["std"][2]
+            if k1["std"][0] != k0["std"][0] or abs(a * f - wback) > STD_REL * max(abs(a * f), abs(wback)) + atol * 10:
+                bad.append(why + ":real-world-not-multiplied")
     return bad
 
 
@@ -518,9 +551,16 @@ FRACS = ["1/2", "1/3", "2/3", "3/4", "1/8", "5/2", "1/4", "7/16"]
 MIXED = ["1 1/2", "2 1/4", "3 3/4", "1 1/3"]
 
 
+def plain_word_unit(u):
+    """a unit the ADVANCED_UNITS spelling (value, blank, unit; parser/quantity.rs 86-146) can carry:
+    it must start with a word token and hold no `%`"""
+    return bool(re.match(r"^[A-Za-z][A-Za-z]*( [A-Za-z]+)*$", u))
+
+
 class RGen:
     def __init__(self, rng, units):
         self.r = rng
+        self.count = {"blank_spelling": 0, "blank_spelling_locked": 0, "timer_blank_spelling": 0}
         keys = []
         for u in units.units:
             for k in u["names"] + u["symbols"] + u["aliases"]:
@@ -578,7 +618,13 @@ class RGen:
         unit = None if (is_text and r.random() < 0.6) else self.unit()
         body = ("=" + r.choice(["", " "]) if lock else "") + s
         if unit is not None:
-            body += r.choice(["%", " % ", "%"]) + unit
+            if ext and not is_text and plain_word_unit(unit) and r.random() < 0.4:
+                # ADVANCED_UNITS: `{=500 g}`, `{1 1/2 cups}` - value, blank, unit, no `%`
+                body = r.choice(["", " "]) + body + r.choice([" ", "  "]) + unit
+                self.count["blank_spelling"] += 1
+                self.count["blank_spelling_locked"] += 1 if lock else 0
+            else:
+                body += r.choice(["%", " % ", "%"]) + unit
         st["linear"].append("F" if (is_text or lock) else "L")
         note = "(chopped)" if (not ref and r.random() < 0.1) else ""   # a note on a reference is an error
         return head + name + "{" + body + "}" + note
@@ -598,6 +644,9 @@ class RGen:
             return "~" + name + "{}"
         s, _ = self.value(ext, allow_text=False)
         unit = r.choice(self.time_keys) if (ext or r.random() < 0.8) else r.choice(["whiles", "g"])
+        if ext and plain_word_unit(unit) and r.random() < 0.3:
+            self.count["timer_blank_spelling"] += 1
+            return "~" + name + "{" + ("=" if r.random() < 0.15 else "") + s + " " + unit + "}"
         return "~" + name + "{" + s + "%" + unit + "}"
 
     def inline(self):
@@ -686,15 +735,23 @@ def gen_cases(rng, tier, units):
         ops = list(dict.fromkeys(ops))
         exp = dict(exp, base=base)
         out.append(("P %s %s %s %s" % (",".join(ops), ext, mut, hx(text)), exp))
+    GEN_COUNT.clear()
+    GEN_COUNT.update(g.count)
     return out
 
 
+GEN_COUNT = {}
+
+
 def corpus_expect(case):
-    """corpus cases carry no generator expectation: only what the mutation field implies"""
-    return {"linear": None, "parsed": case.split(" ")[3] not in ("L", "X")}
+    """corpus cases carry no generator expectation: only what the mutation field implies, and the
+    hand-written Linear/Fixed letters of the ingredients when a 6th field `E<letters>` is present"""
+    f = case.split(" ")
+    exp = {"linear": None, "parsed": f[3] not in ("L", "X")}
+    if len(f) > 5 and f[5].startswith("E"):
+        exp["linear"] = f[5][1:]
+    return exp
 
-
-# ---------------------------------------------------------------- the run
 
 def builds():
     c09_gen.regenerate()
@@ -703,9 +760,16 @@ def builds():
     return os.path.join(bindir, "scale"), runner
 
 
-def load_units(impl_exe):
+def load_units(impl_exe, runner=None):
     lines = common.run_lines(impl_exe, ["U %d" % i for i in range(96)], tag="impl-u")
-    return Units([parse_unit_dump(l) for l in lines if l.startswith("unit ")])
+    standards = None
+    if runner is not None:
+        standards = {}
+        for l in common.run_lines(runner, ["ST %d" % i for i in range(96)], tag="model-st"):
+            if l.startswith("std "):
+                f = l.split(" ")
+                standards[unhx(f[1])] = (f[2], num(f[3]), num(f[4]))
+    return Units([parse_unit_dump(l) for l in lines if l.startswith("unit ")], standards)
 
 
 def case_ops(case):
@@ -742,7 +806,7 @@ def run(rep, tier, seed):
     _, regenerated = c09_gen.regenerate()
     impl_exe, runner = builds()
     audit = common.audit_property_file("C08")
-    units = load_units(impl_exe)
+    units = load_units(impl_exe, runner)
     temp_keys = set(hx(k) for u in units.units if u["pq"] == "temperature" for k in u["names"] + u["symbols"] + u["aliases"])
 
     corpus = [(c, corpus_expect(c)) for c in common.load_corpus("C08")]
@@ -756,7 +820,7 @@ def run(rep, tier, seed):
     stats = {"recipes": 0, "invalid": 0, "panic": 0, "ops": 0, "outcomes": {"S": 0, "F": 0, "N": 0, "E": 0},
              "value_kinds": {"n": 0, "r": 0, "t": 0}, "units_known": 0, "units_unknown": 0, "units_none": 0,
              "refitted_to_other_unit": 0, "fractions_in_results": 0, "nonfinite": 0, "not_parsed_recipes": 0,
-             "inline_quantities": 0, "with_servings": 0}
+             "inline_quantities": 0, "with_servings": 0, "day_crossings": 0}
     evaluated = {}
     for idx, ((case, expect), li) in enumerate(zip(cases, impl)):
         if li == "invalid":
@@ -890,6 +954,11 @@ def run(rep, tier, seed):
             for (_, sq), (_, q) in zip(src["ingredients"], res["ingredients"]):
                 if sq is not None and q is not None and sq[2] != q[1]:
                     stats["refitted_to_other_unit"] += 1
+            for (_, sq), (_, q) in zip(src["ingredients"] + src["timers"], res["ingredients"] + res["timers"]):
+                if sq is not None and q is not None and sq[2] != q[1]:
+                    a, b = units.find(sq[2]), units.find(q[1])
+                    if a is not None and b is not None and ("day" in a["names"]) != ("day" in b["names"]):
+                        stats["day_crossings"] += 1
 
     common.decide(rep, "C08", "L-scale", audit, monitor_hits, disagreements, tier,
                   "correspondence Model/Scale.v <-> src/scale.rs 111-336 (+ Model/Convert.v fit <-> src/convert/mod.rs)")
@@ -939,6 +1008,11 @@ def run(rep, tier, seed):
         "rounding_ties": len(ties), "rounding_tie_samples": ties[:3],
         "correspondence_disagreements": len(disagreements), "monitor_violations": len(monitor_hits),
         "units_toml_regenerated_changed": bool(regenerated), "units": len(units.units),
+        "units_without_real_world_standard": units.without_standard, "standards_entries": len(units.standards),
+        "generated_quantities_in_blank_separated_spelling": GEN_COUNT.get("blank_spelling", 0),
+        "generated_locked_quantities_in_blank_separated_spelling": GEN_COUNT.get("blank_spelling_locked", 0),
+        "generated_timers_in_blank_separated_spelling": GEN_COUNT.get("timer_blank_spelling", 0),
+        "results_crossing_the_day_boundary": stats["day_crossings"],
         "samples": samples,
     })
     rep.assumptions = [
@@ -959,8 +1033,8 @@ def setup():
 
 
 def replay(rp):
-    impl_exe, _ = builds()
-    units = load_units(impl_exe)
+    impl_exe, runner = builds()
+    units = load_units(impl_exe, runner)
     c = rp["replay"].get("case")
     if not c:
         print("no case in replay (proof obligation or machinery): " + rp.get("what", ""))
